@@ -57,6 +57,7 @@ class FnSpec:
         self.selfmut = False
         self.literals = False
         self.strlits = False
+        self.loopkinds = None   # expected kinds of the fn's loops (for / while / loop), in order, on the tree the proof was written for
         self.refpats = []
         self.sites = {}        # site key -> [lines]
 
@@ -70,7 +71,7 @@ def parse_sidecar(path):
         line = raw.rstrip()
         s = line.strip()
         is_directive = (s.startswith("@") or s.startswith("item ") or s.startswith("use_item ") or s.startswith("use_contract ") or s.startswith("region ")
-                        or s in ("keep_attrs", "selfmut", "literals", "strlits") or s.startswith("subst ") or s.startswith("delete ") or s.startswith("replace ")
+                        or s in ("keep_attrs", "selfmut", "literals", "strlits") or s.startswith("subst ") or s.startswith("delete ") or s.startswith("replace ") or s == "loopkinds" or s.startswith("loopkinds ")
                         or re.match(r"(fn|result|refpat) \w+$", s) is not None)
         if cur_site is not None and not is_directive:
             cur_site.append(raw)
@@ -175,6 +176,9 @@ def parse_sidecar(path):
             cur_site = None
         elif s == "strlits":
             cur_fn.strlits = True
+            cur_site = None
+        elif s == "loopkinds" or s.startswith("loopkinds "):
+            cur_fn.loopkinds = s.split()[1:]
             cur_site = None
         elif s.startswith("refpat "):
             cur_fn.refpats.append(s[7:].strip())
@@ -291,6 +295,11 @@ def instrument_fn(ftext, fspec, ed, base, rules, label, contract_of=None):
         else:
             ed.insert(base + st[an.body_close].start, t + "\n")
     loops = an.loops()
+    if fspec.loopkinds is not None and [k_ for (_a, _b, _c, k_) in loops] != fspec.loopkinds:
+        # the loop invariants of the sidecar were written for another loop skeleton (e.g. `while c {..}` became
+        # `loop { if !c { break; } .. }`): they no longer say anything about this text -- no verdict, never an alarm
+        raise Undecided("%s: loop structure changed (%s, the proof was written for %s): the loop contracts do not apply"
+                        % (label, " ".join(k_ for (_a, _b, _c, k_) in loops) or "no loops", " ".join(fspec.loopkinds) or "no loops"))
     if strlit_txt:
         for (_kw, bo_, _bc, _kind) in loops:
             if ("loop %d start" % loops.index((_kw, bo_, _bc, _kind))) not in sites:
